@@ -707,6 +707,72 @@ func c02CollectModel(c *Ctx, cs respCase, schema *ast.Schema, src string) {
 			c.Res.Add(proto.Finding{Kind: "mismatch", Class: "collect-spec-model", What: fmt.Sprintf("%s: model's CollectFields keys %v, executor's %v", opName, dedupKeep(spec), exKeys), Case: cs})
 		}
 		// genqlient side vs the generated struct (direct, non-embedded fields in order)
+		if hasSpread && !strings.Contains(cs.Ops[sortedKeys(cs.Ops)[0]], "flatten") {
+			// with named fragment spreads: the keys carried by the response struct and by every fragment struct embedded in
+			// it (at any depth) against the model with spreads (Model/CollectSpread.lean), as sets
+			var conv2 func(ss ast.SelectionSet) []any
+			conv2 = func(ss ast.SelectionSet) []any {
+				out := []any{}
+				for _, s := range ss {
+					switch s := s.(type) {
+					case *ast.Field:
+						out = append(out, map[string]any{"key": s.Alias})
+					case *ast.InlineFragment:
+						out = append(out, map[string]any{"cond": s.TypeCondition, "sub": conv2(s.SelectionSet)})
+					case *ast.FragmentSpread:
+						out = append(out, map[string]any{"spread": s.Name})
+					}
+				}
+				return out
+			}
+			var frags []any
+			for _, f := range doc.Fragments {
+				frags = append(frags, map[string]any{"name": f.Name, "cond": f.TypeCondition, "sel": conv2(f.SelectionSet)})
+			}
+			m2 := c.Model(map[string]any{"op": "collect.keys2", "types": types, "object": root.Name, "frags": frags, "sel": conv2(op.SelectionSet)})
+			if _, bad := m2["error"]; !bad {
+				want := map[string]bool{}
+				for _, x := range m2["genq"].([]any) {
+					want[x.(string)] = true
+				}
+				cd := &codecDeriver{d: decls}
+				ty := cd.structTy(respType)
+				have := map[string]bool{}
+				var closure func(st codecTy)
+				closure = func(st codecTy) {
+					fs, _ := st["fs"].([]any)
+					for _, x := range fs {
+						f := x.(map[string]any)
+						if f["emb"] == true {
+							closure(f["t"].(codecTy))
+						} else {
+							have[strings.Split(f["json"].(string), ",")[0]] = true
+						}
+					}
+				}
+				closure(ty)
+				var missing, extra []string
+				for k := range want {
+					if !have[k] {
+						missing = append(missing, k)
+					}
+				}
+				for k := range have {
+					if !want[k] {
+						extra = append(extra, k)
+					}
+				}
+				sortStrings(missing)
+				sortStrings(extra)
+				c.Res.Count("collect-spread-model-compared")
+				if len(missing)+len(extra) > 0 {
+					c.Res.Add(proto.Finding{Kind: "mismatch", Class: "collect-genq-model-spreads", What: fmt.Sprintf("%s: struct %s and its embedded fragments lack keys %v / carry keys %v the model does not have", opName, respType, missing, extra), Case: cs})
+				}
+				if fmt.Sprint(m2["genq"]) != fmt.Sprint(m2["spec"]) {
+					c.Res.Add(proto.Finding{Kind: "mismatch", Class: "collect-spread-theorem", What: "genq and spec keys differ in the model (contradicts C02_struct_fields_are_collectFields_with_spreads)", Case: cs})
+				}
+			}
+		}
 		if st, ok := decls.structs[respType]; ok && !hasSpread {
 			var tags []string
 			for _, f := range st {
